@@ -94,9 +94,10 @@ RULE = ("seeded random packages (2-5 modules incl. private modules and a sub-pac
         "private mixins, bases imported from another module -- whose classes share a small pool of member names so that a name is defined by "
         "several ancestors, intermediate classes mostly private) x edit scripts of 1-4 edits from a catalogue of 25 edits (incl. combined "
         "base removal + member change on one class, edits of overriding definitions in private bases, keyword-only -> positional at a "
-        "reachable position) applied at random public/private locations, in a single package or in the facade layout (public `pkg` "
+        "reachable position, value edits between ==-equal literals of different type incl. containers) applied at random public/private locations, in a single package or in the facade layout (public `pkg` "
         "re-exporting from a private top-level `_pkg`); plus identical copies, post-load `public` flag overrides, 3 scripted histories, the "
-        "corpus/C11 regression packages and 3-version git histories for the CLI. A case is non-trivial when the edit script is non-empty "
+        "corpus/C11 regression packages, importable packages whose facades compose __all__ from other modules' __all__ (4 styles, 4 layouts; "
+        "really imported for CPython's __all__) and 3-version git histories (flat / src layouts) for the CLI and load_git. A case is non-trivial when the edit script is non-empty "
         "or aliases are present; distinct by the rendered (old, new) sources")
 TRUSTED = ["harness abstraction of loaded Griffe trees into model stores and raw stores (harness/props/c11.py:Abstraction, RawAbstraction)",
            "translator harness/translate/c11_ladder.py (whitelisted AST shapes of mixins.py / diff.py; fails closed)",
@@ -105,7 +106,8 @@ ASSUMPTIONS = ["object identity is the object path (asserted by the abstractions
                "declared members / imports / exports / alias target paths / canonical paths of base expressions are inputs read from Griffe; "
                "alias.target outcomes, resolved bases, MRO and inherited members are computed in Coq (elaboration) and compared with Griffe's",
                "no alias target path or base path walks through an alias (rwf; checked and counted per case)",
-               "__all__ entries are string literals (exports already expanded by the loader)"]
+               "module exports are read from Griffe after the loader expanded them (expand_exports is not modelled); in the composed-__all__ stream "
+               "they are checked against CPython's real __all__ after import"]
 
 KN = ["PO", "PK", "VP", "KO", "VK"]
 PARAM_KIND = {"positional-only": "PO", "positional or keyword": "PK", "variadic positional": "VP", "keyword-only": "KO",
